@@ -1,6 +1,7 @@
 (* Extraction for the C01 correspondence driver (ExtrOcamlBasic only, no Extract Constant). *)
 From Coq Require Import Extraction ExtrOcamlBasic NArith ZArith List.
-From AHK Require Import Lib.Res Lib.ByteStr Model.Tlv Model.Sym Model.Verify Model.VerifyHist.
+From AHK Require Import Lib.Res Lib.ByteStr Model.Tlv Model.Sym Model.Verify Model.VerifyHist Model.VerifyConn.
 Separate Extraction Z.of_N Z.to_N N.of_nat N.to_nat
   atom_eqb msg_eqb mlen lit as_bytes s_dh srp_kc srp_ks
-  pv_m1 m1_plain pv_on_m2 pv_on_m4 pv_run acc_m2 acc_m4 glue acc_keys keys_eqb pv_exchange g_init g_step g_trace.
+  pv_m1 m1_plain pv_on_m2 pv_on_m4 pv_run acc_m2 acc_m4 glue acc_keys keys_eqb pv_exchange g_init g_step g_trace
+  g_inflight g_needs_verify g_connect c_init c_step c_trace.
